@@ -1,5 +1,5 @@
 """Per-property claims (source of MANIFEST.json, regenerate with bin/mkmanifest.py)."""
-SOURCE_COMMITS = ["7e146d4", "9424340", "a1f5d2c", "8e587e5", "5690cd1", "d545c2f", "62723dc", "8131b7f", "100c501", "28b899b", "5d5fcc0", "dc78639"]   # fix: commits in /repo (no hook commits are needed)
+SOURCE_COMMITS = ["7e146d4", "9424340", "a1f5d2c", "8e587e5", "5690cd1", "d545c2f", "62723dc", "8131b7f", "100c501", "28b899b", "5d5fcc0", "dc78639", "f3454e3"]   # fix: commits in /repo (no hook commits are needed)
 
 _NOTE = ("Trusted: PyVC (interpreter, VC generation), z3, the numpy/builtins stubs (assumed contracts of dependencies, listed in the "
          "evidence), floats treated as reals except in comparisons, unbounded ints, partial correctness. ")
@@ -42,6 +42,14 @@ CHECKS["C19"] = {"category": "proof", "technique": "contract-based deductive ver
            "lives only in the ContextVar (frame). The guards in __iadd__/frequencies setter are checked (bounded arrays) with the switch symbolic: accepted iff on, otherwise refused with the state unchanged.",
    "note": _NOTE + "contextvars.ContextVar and contextlib.contextmanager are ASSUMED contracts (stubs); isolation between threads/asyncio tasks is reduced to the assumed ContextVar "
            "contract by the frame clause -- the `schedules` quantifier (interleavings) itself is not decided by this technique."}
+CHECKS["C07"] = {"category": "proof", "technique": "contract-based deductive verification (VCs from the real AST, z3); array-valued parts bounded",
+   "text": "Unbounded (symbolic bin count): FixedWidthBinning.__init__ (every refusal and the stored grid incl. 'first edge == requested min'), first_edge, last_edge, "
+           "numpy_bins (forall i: edge i on the grid, a quantified obligation over a z3 array term), bin_count, copy, _force_bin_existence_single. Bounded (<= 3 bins / values, symbolic "
+           "edges and data): validation of StaticBinning/NumpyBinning, agreement of bins / numpy_bins / masked edges / bin_count / first / last / is_consecutive / is_regular / copy / == / "
+           "slicing / as_static / as_fixed_width for every class, make_bin_array, is_rising, is_consecutive, to_numpy_bins_with_mask, is_bin_subset, as_binning, the factories numpy / "
+           "fixed_width / integer / static / exponential / quantile(refusals) / ideal_bin_count and the dispatch of calculate_1d_bins.",
+   "note": _NOTE + "Not covered: pretty_binning's width choice (log10/argmin over candidates), quantile edges (np.percentile is an uninterpreted stub), astropy rules, "
+           "rounding of floor/ceil on binary64 (finding F6), doane's skewness."}
 CHECKS["C04"] = {"category": "proof", "technique": "contract-based deductive verification: VCs from the real AST, z3 (nonlinear mixed int/real arithmetic)",
    "text": "FixedWidthBinning._force_bin_existence_single is verified for an unbounded (symbolic) bin count, width, origin, shift and value: value covered, grid and old "
            "bins kept, minimal growth, returned shift, caches invalidated -- every path, all inputs (reals). The adaptive arms of fill are additionally checked bounded "
